@@ -1,5 +1,6 @@
 import Mixin.Model.TxCodec
 import Mixin.Proofs.TxCodec
+import Mixin.Proofs.TxCodecWf
 import Mixin.Facts.ExpectedC06
 /-!
 # C06 — transaction encoding is canonical and its hash is content-addressed
@@ -65,6 +66,20 @@ theorem decode_canonical {b : Bytes} {tx : Tx} (h : decodeTx b = some tx) : enco
 set_option maxRecDepth 100000 in
 example : decodeTx (encodeTx sampleSigned) = some sampleSigned := by decide
 
+/-- Whatever the raw decoder returns is well formed — representable and within every panic
+    guard of the encoder — and within the decoder's limits; so the canonical re-encoding
+    inside `unmarshalVersionedTransaction` (and any later `Marshal`) cannot panic. -/
+theorem decode_wf {b : Bytes} {tx : Tx} (h : decodeRaw b = some tx) : WF tx ∧ canon tx = true :=
+  decodeRaw_wf h
+
+theorem decode_reencode_no_panic {b : Bytes} {tx : Tx} (h : decodeRaw b = some tx) :
+    encodeChecked tx = some (encodeTx tx) := by
+  unfold encodeChecked
+  rw [if_pos (decode_wf h).1.2]
+
+set_option maxRecDepth 100000 in
+example : (decodeRaw (encodeTx sampleAggOrdinary)).isSome = true := by decide
+
 /-! ## round trip -/
 
 /-- Encoding followed by decoding returns an equal transaction: for every well-formed
@@ -97,6 +112,89 @@ theorem marshal_total (tx : Tx) (hwf : WF tx) (hc : Canon tx) : marshal tx = som
   simp only
   rw [roundtrip tx hwf hc]
   simp
+
+/-- Exact characterisation of acceptance: the accepted byte strings are precisely the
+    encodings of well-formed transactions within the decoder's limits. -/
+theorem decodeTx_iff (b : Bytes) (tx : Tx) :
+    decodeTx b = some tx ↔ WF tx ∧ Canon tx ∧ encodeTx tx = b := by
+  constructor
+  · intro h
+    have hb := decode_canonical h
+    unfold decodeTx at h
+    split at h
+    · cases h
+    · rename_i hsize
+      split at h
+      · cases h
+      · rename_i tx' hraw
+        split at h
+        · cases h
+          have ⟨hwf, hc⟩ := decode_wf hraw
+          exact ⟨hwf, ⟨hc, by rw [hb]; omega⟩, hb⟩
+        · cases h
+  · rintro ⟨hwf, hc, rfl⟩
+    exact roundtrip tx hwf hc
+
+/-! ## non-canonical forms: accepted by `DecodeTransaction`, rejected by the canonical gate -/
+
+/-- version, asset, no inputs, no outputs, no references, empty extra -/
+def hdr : Bytes := magic ++ [0, 5] ++ h32 0xaa ++ [0, 0, 0, 0, 0, 0, 0, 0, 0, 0]
+/-- the same with one output whose amount is written as `amt` (length-prefixed) -/
+def hdrOut (amt : Bytes) : Bytes :=
+  magic ++ [0, 5] ++ h32 0xaa ++ [0, 0] ++ [0, 1] ++ ([0, 0] ++ amt ++ [0, 0] ++ h32 3 ++ [0, 0] ++ [0, 0]) ++
+    [0, 0] ++ [0, 0, 0, 0]
+def aggHdr : Bytes := hdr ++ [0xff, 0xff, 0xff, 0x01] ++ s64 8
+
+def NonCanonical (b : Bytes) : Prop := (decodeRaw b).isSome = true ∧ (decodeTx b).isNone = true
+
+instance (b : Bytes) : Decidable (NonCanonical b) := by unfold NonCanonical; exact inferInstance
+
+set_option maxRecDepth 100000 in
+/-- baseline: the canonical spellings are accepted -/
+example : (decodeTx (hdr ++ [0, 0])).isSome = true ∧ (decodeTx (hdrOut [0, 1, 1] ++ [0, 0])).isSome = true ∧
+    (decodeTx (aggHdr ++ [0, 0, 1, 1])).isSome = true ∧ (decodeTx (aggHdr ++ [0, 0, 0])).isSome = true := by decide
+
+set_option maxRecDepth 100000 in
+/-- a leading zero byte in an amount (`00 02 00 01` for 1) -/
+theorem noncanonical_padded_amount : NonCanonical (hdrOut [0, 2, 0, 1] ++ [0, 0]) := by decide
+
+set_option maxRecDepth 100000 in
+/-- signature entries in decreasing index order (2 then 1) -/
+theorem noncanonical_unsorted_signatures :
+    NonCanonical (hdr ++ [0, 1] ++ [0, 2] ++ ([0, 2] ++ s64 6) ++ ([0, 1] ++ s64 5)) := by decide
+
+set_option maxRecDepth 100000 in
+/-- a sparse mask for the signer set {0}, whose canonical form is the ordinary mask `00 0001 01` -/
+theorem noncanonical_sparse_for_dense : NonCanonical (aggHdr ++ [1, 0, 1, 0, 0]) := by decide
+
+set_option maxRecDepth 100000 in
+/-- an ordinary mask with a trailing zero byte -/
+theorem noncanonical_mask_trailing_zero : NonCanonical (aggHdr ++ [0, 0, 2, 1, 0]) := by decide
+
+set_option maxRecDepth 100000 in
+/-- an empty sparse mask (`01 0000`), canonical form `00 0000` -/
+theorem noncanonical_empty_sparse : NonCanonical (aggHdr ++ [1, 0, 0]) := by decide
+
+set_option maxRecDepth 100000 in
+/-- an all-zero ordinary mask of one byte (no signer), canonical form `00 0000` -/
+theorem noncanonical_zero_mask : NonCanonical (aggHdr ++ [0, 0, 1, 0]) := by decide
+
+set_option maxRecDepth 100000 in
+/-- an ordinary mask for the signer set {500} (63 bytes), whose canonical form is sparse -/
+theorem noncanonical_ordinary_for_sparse :
+    NonCanonical (aggHdr ++ [0, 0, 63] ++ List.replicate 62 0 ++ [16]) := by decide
+
+set_option maxRecDepth 100000 in
+/-- 257 signature maps announced, 256 read (`min(sl, SliceCountLimit)`), nothing follows -/
+theorem noncanonical_overannounced_maps :
+    NonCanonical (hdr ++ [1, 1] ++ (List.replicate 256 [0, 0]).flatten) := by decide
+
+set_option maxRecDepth 100000 in
+/-- rejected already by the raw decoder: a duplicate signature index, a trailing byte, a
+    zero-length amount at the very end of the input (the `bytes.Reader` quirk is not reachable
+    inside a transaction, but the reader models it) -/
+example : decodeRaw (hdr ++ [0, 1] ++ [0, 2] ++ ([0, 1] ++ s64 6) ++ ([0, 1] ++ s64 5)) = none ∧
+    decodeRaw (hdr ++ [0, 0] ++ [0]) = none ∧ readInteger [0, 0] = none := by decide
 
 /-! ## the hash is content-addressed -/
 
